@@ -4,6 +4,7 @@
   tests mean that the columns of K are a basis of the right null space (every null vector is a unique combination).
 -/
 import M4riProofs.Kernel
+import M4riProofs.GaussOK
 namespace M4ri.Props.C07
 open M4ri M4ri.BMat
 
@@ -13,6 +14,15 @@ theorem kernel_is_basis {A K : BMat} {ρ : Nat} (hK : K.WF) (hKr : K.nrows = A.n
         ∃ W : BMat, W.WF ∧ W.nrows = K.ncols ∧ W.ncols = V.ncols ∧ K.mul W = V) ∧
     (∀ W W' : BMat, W.WF → W'.WF → W.nrows = K.ncols → W'.nrows = K.ncols → W'.ncols = W.ncols →
         K.mul W = K.mul W' → W = W') := kernel_basis hK hKr hdim hrA hrK hAK
+
+/-- unconditional soundness of the four tests performed on every kernel the library returns -/
+theorem kernel_tests_sound {A K : BMat} (hA : A.WF) (hK : K.WF) (h1 : K.nrows = A.ncols)
+    (h2 : K.ncols = A.ncols - A.rank) (h3 : (A.mul K).eqM (zero A.nrows K.ncols) = true) (h4 : K.rank = K.ncols) :
+    A.mul K = zero A.nrows K.ncols ∧
+    (∀ V : BMat, V.WF → V.nrows = A.ncols → A.mul V = zero A.nrows V.ncols →
+        ∃ W : BMat, W.WF ∧ W.nrows = K.ncols ∧ W.ncols = V.ncols ∧ K.mul W = V) ∧
+    (∀ W W' : BMat, W.WF → W'.WF → W.nrows = K.ncols → W'.nrows = K.ncols → W'.ncols = W.ncols →
+        K.mul W = K.mul W' → W = W') := GOK.kernel_checker_sound hA hK h1 h2 h3 h4
 
 #check @M4ri.BMat.checkKernel_sound
 #check @M4ri.BMat.checkKernel_sound'
